@@ -647,6 +647,22 @@ def run_case(case, seed=0, solver_timeout_ms=60000, cvc5=False, selfcheck_points
                 best = rep
             if rep.get("reproduced"):
                 break
+    if not (best and best.get("reproduced")):
+        # the property quantifies over matrices of ANY absolute scale (only their condition number is bounded): a deviation
+        # that is absolute (e.g. a fixed jitter) only shows for small matrices -> replay with every covariance / precision
+        # block scaled by 1e-6 (Cholesky factors by 1e-3), standard error metric
+        pref = tuple(i.name + "_" for i in b.inputs if i.kind in ("spd", "diag"))
+        if pref:
+            for _ in range(2):
+                env = gen_env(case, ctx, rng)
+                for n in list(env):
+                    if n.startswith(pref):
+                        env[n] = env[n] * 1e-3
+                rep = _replay(case, I, env)
+                rep["model_kind"] = "generic-point-small-matrices"
+                if rep.get("reproduced"):
+                    best = rep
+                    break
     if not (best and best.get("reproduced")) and case.replay_scales:
         prefixes, scales = case.replay_scales
         for sc in scales:
